@@ -403,7 +403,7 @@ fn sections(cfg: &Cfg) -> Vec<(Sect, u64)> {
     let u = all_unary(3).len() as u64;
     let q = cfg.tier == crate::report::Tier::Quick;
     vec![
-        (Sect::Pairs, u * u * if q { 4 } else { 24 * 3 }),
+        (Sect::Pairs, u * u * if q { 4 } else { 24 * 2 }),
         (Sect::Bins, 4 * u * u * if q { 1 } else { 8 }),
         (Sect::MaSlot, if q { 200 } else { 8000 }),
         (Sect::MaView, 2 * u * if q { 3 } else { 40 }),
